@@ -21,6 +21,7 @@ ID = 'C02'
 tf = this_field
 NAMES = ('A', 'B', 'Z')
 PLACEMENTS = ('top', 'body', 'domain')
+DEEP_PLACEMENTS = ('range', 'set', 'index', 'call', 'nested-domain')  # inside literals, indices, arguments, a domain of a nested quantifier
 
 
 def bounds(tier):
@@ -32,6 +33,7 @@ def bounds(tier):
                 # names of several letters, one a prefix of the other (one-letter strings are shared objects in CPython)
                 {'features': 2, 'names': ('A', 'B'), 'placements': PLACEMENTS, 'spelling': {'A': 'Pose', 'B': 'Po', 'Z': 'ose'}},
                 {'features': 4, 'names': ('A',), 'placements': ('top',)},
+                {'features': 2, 'names': ('A', 'B'), 'placements': DEEP_PLACEMENTS},
             ]
         }
     return {
@@ -39,6 +41,7 @@ def bounds(tier):
             {'features': 4, 'names': ('A', 'B'), 'placements': ('top', 'domain')},
             {'features': 3, 'names': ('A', 'B'), 'placements': PLACEMENTS, 'spelling': {'A': 'Pose', 'B': 'Po', 'Z': 'ose'}},
             {'features': 5, 'names': ('A',), 'placements': ('top',)},
+            {'features': 3, 'names': ('A', 'B'), 'placements': DEEP_PLACEMENTS},
         ]
     }
 
@@ -48,6 +51,16 @@ def ref_pred(name, placement):
         return ('pred', ('bin', '=', tf('x'), alias_field(name, 'x')))
     if placement == 'body':
         return ('pred', ('quant', 'forall', 'i', tf('xs'), ('bin', '>', ('var', 'i'), alias_field(name, 'x'))))
+    if placement == 'range':
+        return ('pred', ('bin', 'in', tf('x'), ('range', num(0), alias_field(name, 'x'), False, True)))
+    if placement == 'set':
+        return ('pred', ('bin', 'in', tf('x'), ('set', (num(0), alias_field(name, 'x')))))
+    if placement == 'index':
+        return ('pred', ('bin', '>', ('index', tf('xs'), alias_field(name, 'x')), num(0)))
+    if placement == 'call':
+        return ('pred', ('bin', '>', ('call', 'abs', (('un', '-', alias_field(name, 'x')),)), num(0)))
+    if placement == 'nested-domain':
+        return ('pred', ('quant', 'forall', 'i', tf('xs'), ('quant', 'exists', 'j', ('range', ('var', 'i'), alias_field(name, 'x'), False, False), ('bin', '>', ('var', 'j'), num(0)))))
     return ('pred', ('quant', 'exists', 'i', alias_field(name, 'xs'), ('bin', '>', ('var', 'i'), num(0))))
 
 
@@ -550,7 +563,7 @@ def describe(tier):
     b = bounds(tier)
     menus = '; '.join(f"<= {m['features']} features with aliases {list(m['names'])} and placements {list(m['placements'])}" for m in b['menus'])
     return {
-        'rule': f"every scope kind x pattern kind x every combination of features ({menus}) from: make a position a 2-wide disjunction; give an event (either alternative of any position) an alias; give an event a reference to an alias or to Z (never bound) placed at top level / in a quantifier body / in a quantifier domain. Each property is built four ways (parser; constructors; but() copies from the all-default property: at once, event by event, and stepwise through intermediate properties; events derived with but() from events that already sit in a checked property and have been queried, in both directions) and the accept / sanity-error outcome compared with an independent scoping function. Plus 20 hand-written and 392 generated quantifier-hygiene predicates (4 outer quantifiers x 16 wrappers x 6 inner quantifiers that re-bind / shadow / leak / never use a variable, verdict from an independent implementation of rule (iv)) x 3 positions x parser and API routes and 10 duplicate-channel disjunctions x 5 positions x both nestings. A state = one property; a transition = one construction.",
+        'rule': f"every scope kind x pattern kind x every combination of features ({menus}) from: make a position a 2-wide disjunction; give an event (either alternative of any position) an alias; give an event a reference to an alias or to Z (never bound) placed at top level / in a quantifier body / in a quantifier domain (one menu: inside a range literal / a set literal / an index / a function argument / the domain of a nested quantifier). Each property is built four ways (parser; constructors; but() copies from the all-default property: at once, event by event, and stepwise through intermediate properties; events derived with but() from events that already sit in a checked property and have been queried, in both directions) and the accept / sanity-error outcome compared with an independent scoping function. Plus 20 hand-written and generated quantifier-hygiene predicates (8 outer quantifiers x 16 wrappers x 6 inner quantifiers that re-bind / shadow / leak / never use a variable, verdict from an independent implementation of rule (iv)) x 3 positions x parser and API routes and 10 duplicate-channel disjunctions x 5 positions x both nestings. A state = one property; a transition = one construction.",
         'bounds': {'menus': [[m['features'], len(m['names']), len(m['placements'])] for m in b['menus']]},
         'exhaustive': True,
         'assumptions': ['the same alias on two alternatives of one disjunction is parallel binding, not re-binding; an alias bound on some alternatives counts as bound for later events (C02 wording)'],
